@@ -727,3 +727,96 @@ pub(crate) fn mk_raw_zipfile<'a>(data: &'a ZipFileData, reader: &'a mut dyn Read
     let n = data.compressed_size;
     ZipFile { data: Cow::Borrowed(data), crypto_reader: None, reader: ZipFileReader::Raw(reader.take(n)) }
 }
+
+// =============================================================================================
+// C20: cloned handles are independent (single thread; threads are outside the technique)
+// =============================================================================================
+/// C20 two handles on the same archive (ZipArchive::clone: own reader copy, metadata shared
+/// behind the reference count, data start cached in the shared relaxed atomic): an archive state
+/// with 1 byte of prepended data (constructed as ZipArchive::new leaves it - c03_open_meta_* -
+/// with concrete well-formed local headers and symbolic payload bytes with their reference
+/// CRC); handle A opens entry 0 and reads its first byte; handle B (the clone) opens the SAME
+/// entry while A is in the middle of it - its data start is by then cached in the shared
+/// metadata - and reads the first byte; A resumes and reads the second byte: every handle sees
+/// exactly the bytes and data_start() it would see alone.
+// @h prop=C20,C03 tier=quick t=600 mem=6 uws="fn:^std::ptr::drop_glue::<std::io::Error>$:2"
+#[kani::proof]
+#[kani::unwind(8)]
+#[kani::stub(crc32fast::Hasher::internal_new_specialized, crate::verif_kit::stub_crc_specialized)]
+#[kani::stub(std::hash::RandomState::new, crate::verif_kit::stub_random_state)]
+fn c20_clones_interleaved() {
+    const N: usize = 96;
+    const J: usize = 1;
+    let mut b = [0u8; N];
+    b[0] = kani::any();
+    let p0: [u8; 2] = kani::any();
+    let p1: [u8; 1] = kani::any();
+    let v = EntryVals { made_by: 0x031e, needed: 20, flags: 0, method: 0, time: 0x6000, date: 0x5021, crc: 0, csize: 0, usize_: 0, disk: 0, iattr: 0, eattr: 0, offset: 0 };
+    let l0 = J;
+    let d0 = put_local(&mut b, l0, &v, 0, 2, 2, b"a", &[]);
+    b[d0] = p0[0];
+    b[d0 + 1] = p0[1];
+    let l1 = d0 + 2;
+    let d1 = put_local(&mut b, l1, &v, 0, 1, 1, b"b", &[0xfe, 0xca, 0, 0]);
+    b[d1] = p1[0];
+    let end = d1 + 1;
+    let mut e0 = zfd_for_extra(Vec::new(), 2, 2, l0 as u32, 0);
+    e0.crc32 = ref_crc32(&p0, 2);
+    let mut e1 = zfd_for_extra(Vec::new(), 1, 1, l1 as u32, 0);
+    e1.crc32 = ref_crc32(&p1, 1);
+    let src = Src::<N>::new(b, end);
+    let mut a = ZipArchive {
+        reader: src,
+        shared: Arc::new(zip_archive::Shared { files: vec![e0, e1], names_map: HashMap::new(), offset: J as u64, comment: Vec::new() }),
+    };
+    let mut bh = a.clone();
+    macro_rules! open {
+        ($h:expr, $i:expr) => {
+            match $h.by_index($i) {
+                Ok(f) => f,
+                Err(e) => {
+                    core::mem::forget(e);
+                    assert!(false, "entry could not be opened");
+                    return;
+                }
+            }
+        };
+    }
+    macro_rules! rd {
+        ($f:expr, $want:expr) => {{
+            let mut one = [0u8; 1];
+            match $f.read(&mut one) {
+                Ok(m) => {
+                    let w: Option<u8> = $want;
+                    match w {
+                        Some(x) => {
+                            assert_eq!(m, 1);
+                            assert_eq!(one[0], x);
+                        }
+                        None => assert_eq!(m, 0),
+                    }
+                }
+                Err(e) => {
+                    core::mem::forget(e);
+                    assert!(false, "read failed");
+                }
+            }
+        }};
+    }
+    {
+        let mut fa = open!(a, 0);
+        assert_eq!(fa.data_start(), d0 as u64);
+        rd!(fa, Some(p0[0]));
+        // the same entry through the clone while A is in the middle of it: the data start is
+        // already cached in the shared metadata, the clone has its own reader position
+        let mut fb = open!(bh, 0);
+        assert_eq!(fb.data_start(), d0 as u64);
+        rd!(fb, Some(p0[0]));
+        rd!(fa, Some(p0[1]));
+        core::mem::forget(fa);
+        core::mem::forget(fb);
+    }
+    kani::cover!(true);
+    core::mem::forget(a);
+    core::mem::forget(bh);
+}
